@@ -432,10 +432,10 @@ def job_given(ctx, names, N, freq, q0name, rngs, full):
 
 def run(ctx):
     thorough = ctx.thorough
-    rngs = sorted({0, 1, int(ctx.seed)} | ({2, 3, 5, 7, 11} if thorough else set()))
+    rngs = sorted({0, 1, int(ctx.seed)} | ({2, 3, 5} if thorough else set()))
     jobs = []
     # ---- random trajectories -----------------------------------------------------------------------
-    Ns = (10, 11, 12, 49, 50, 51, 52, 100, 200, 500) if thorough else (10, 11, 50, 200)
+    Ns = (10, 11, 12, 50, 51, 100, 200, 500) if thorough else (10, 11, 50, 200)
     spans = ('def', 'half', 'small', 'list', 'quarter') if thorough else ('def', 'half', 'small')
     yaws = ('-', '0', '45', '-120') if thorough else ('-', '0', '45')
     for N in Ns:
@@ -451,8 +451,9 @@ def run(ctx):
     ks = list(range(len(A.MENU))) if thorough else [A.seed_k(ctx.seed)]
     grngs = sorted({0, 1, int(ctx.seed)}) if thorough else sorted({0, int(ctx.seed)})
     for f, N in (((100.0, 120), (25.0, 60), (100.0, 400), (1000.0, 52)) if thorough else ((100.0, 80), (25.0, 60))):
-        for q0 in ['I'] + [f'M{k}' for k in ks]:
-            full = thorough and q0 in ('I', f'M{ks[0]}')
+        q0s = ['I'] + [f'M{k}' for k in (ks if (f, N) == (100.0, 120) or not thorough else [A.seed_k(ctx.seed)])]
+        for q0 in q0s:
+            full = thorough and q0 == 'I'
             for lo, hi in core.chunks(len(names), 28 if full else (14 if thorough else 8)):
                 jobs.append(('job_given', (names[lo:hi], N, f, q0, grngs, full)))
     core.run_jobs(ctx, __name__, jobs)
